@@ -28,8 +28,8 @@ pub fn run(o: &Opts) {
         return;
     }
     let trace = sc::trace_take();
-    let st0 = RefState { markers: BTreeSet::new(), bal: w.bal.clone() };
-    let mut it = Interp { uids: &uids, calls: vec![], ks: vec![] };
+    let st0 = RefState::new(w.bal.clone());
+    let mut it = Interp::new(&w, &uids);
     let _ = it.run(&root, &st0);
     let got = observed_calls(&w, &trace, &|e| uid_of_ev(e));
     // exactly once / never, on the dispatching contract, after the sub-message and before the next
@@ -64,14 +64,14 @@ pub fn scenarios(tier: &str) -> Vec<Scenario> {
     let mut v = vec![];
     let must = ["some_reply", "some_reply_ok", "some_reply_err"];
     v.push(Scenario::new("trees_depth2_nodes3_output_and_ids_varied", &must, || {
-        run(&Opts { max_depth: 2, max_nodes: 3, max_children: 2, vary_output: true, vary_ids: true })
+        run(&Opts { max_depth: 2, max_nodes: 3, max_children: 2, vary_output: true, vary_ids: true, reply_subs: false, inst_leaves: false })
     }));
     if tier == "thorough" {
         v.push(Scenario::new("trees_depth2_nodes4_chain_output_varied", &must, || {
-            run(&Opts { max_depth: 2, max_nodes: 4, max_children: 1, vary_output: true, vary_ids: true })
+            run(&Opts { max_depth: 2, max_nodes: 4, max_children: 1, vary_output: true, vary_ids: true, reply_subs: false, inst_leaves: false })
         }));
         v.push(Scenario::new("trees_depth3_nodes4_chain", &must, || {
-            run(&Opts { max_depth: 3, max_nodes: 4, max_children: 1, vary_output: false, vary_ids: true })
+            run(&Opts { max_depth: 3, max_nodes: 4, max_children: 1, vary_output: false, vary_ids: true, reply_subs: false, inst_leaves: false })
         }));
     }
     v
